@@ -518,3 +518,8 @@ def finalize(ctx):
         ctx.inconc("no invocation was logged")
     if ctx.counters.get("settled_layout_differed_from_advertised", 0) == 0:
         ctx.inconc("no case where the optimized layout differed from the advertised one (the deciding cases)")
+
+
+RULE += (
+    ' Also calls with drop_axis / new_axis / explicit chunks= and 0-2 extra lower-rank inputs against a model of block_info[i]; producers that drift with equal block count and widest block, windows of fancy-indexed arrays, and drift through a plain map_blocks.'
+)
